@@ -159,6 +159,13 @@ def gen_combinator_design(rng, cfg, tier, shape=None):
     # nest: outer and inner crossings over disjoint basic factors, no preambles
     o, i = basics[0], basics[1]
     extra = basics[2:] if len(basics) > 2 else []
+    if cfg.get("nest_small"):
+        # keep |V(outer)| x |V(inner)|^T(outer) within reach of an exhaustive comparison
+        if len(fb[o]["levels"]) >= 3 and len(fb[i]["levels"]) >= 3:
+            victim = fb[rng.choice([o, i])]
+            victim["levels"] = victim["levels"][:2]
+        if extra and rng.random() < 0.7:
+            extra = []
     outer = _cross([o] + ([extra[0]] if extra and rng.random() < 0.5 else []), [o], [])
     inner_design = [i] + [x for x in extra if x not in outer["design"]]
     inner = _cross(inner_design, [i], cons(rng.choice([0, 1, 1]), SCOPED_KINDS, size_of([i])))
